@@ -241,7 +241,8 @@ Proof. reflexivity. Qed.
     final batch comes back with io.EOF, so that a later SeekToRow to the row at
     which that batch started is skipped) violates the statement. *)
 Theorem C08_rows_multi_column_stale_rowindex_refuted :
-  exists N cols ops, layout_ok N cols /    run_mrows_indexed_stale cols ops <> run_mspec true (length cols) N ops.
+  exists N cols ops, layout_ok N cols /\
+    run_mrows_indexed_stale cols ops <> run_mspec true (length cols) N ops.
 Proof.
   exists 12, [[4; 4; 4]; [5; 7]; [12]], [RSeek 10; RRead 5; RSeek 10; RRead 1].
   split; [split; [discriminate|repeat constructor]|]. vm_compute. discriminate.
@@ -253,7 +254,8 @@ Qed.
     multiPages.SeekToRow. *)
 Theorem C08_global_row_to_row_group : forall chunks k idx k',
   mp_locate (map total_rows chunks) 0 k = (idx, k') ->
-  idx <= length chunks /\ k = mp_offset chunks idx + k' /  (idx < length chunks -> k' < total_rows (nth idx chunks [])).
+  idx <= length chunks /\ k = mp_offset chunks idx + k' /\
+  (idx < length chunks -> k' < total_rows (nth idx chunks [])).
 Proof. exact mp_locate_global. Qed.
 
 Theorem C08_multi_pages_refines_position : forall chunks ops,
@@ -320,14 +322,18 @@ Theorem C08_async_equals_sync : forall pages calls sched x,
   positive pages -> pages <> [] -> Forall noclose calls ->
   Sem.run (axstep (step_indexed pages)) (axinit init calls) sched = Some x ->
   let sync := run_indexed pages (map op_of_call calls) in
-  xouts x = firstn (length (xouts x)) sync /  (ax_finished x = true -> xouts x = sync) /  (wants (xa x) -> exists l x', axstep (step_indexed pages) x l = Some x').
+  xouts x = firstn (length (xouts x)) sync /\
+  (ax_finished x = true -> xouts x = sync) /\
+  (wants (xa x) -> exists l x', axstep (step_indexed pages) x l = Some x').
 Proof. exact async_indexed_equals_sync. Qed.
 
 Theorem C08_async_noindex_equals_sync : forall pages calls sched x,
   positive pages -> Forall noclose calls ->
   Sem.run (axstep (step_noindex false pages)) (axinit init calls) sched = Some x ->
   let sync := run_noindex pages (map op_of_call calls) in
-  xouts x = firstn (length (xouts x)) sync /  (ax_finished x = true -> xouts x = sync) /  (wants (xa x) -> exists l x', axstep (step_noindex false pages) x l = Some x').
+  xouts x = firstn (length (xouts x)) sync /\
+  (ax_finished x = true -> xouts x = sync) /\
+  (wants (xa x) -> exists l x', axstep (step_noindex false pages) x l = Some x').
 Proof. exact async_noindex_equals_sync. Qed.
 
 Print Assumptions C08_rows_multi_column.
@@ -402,7 +408,10 @@ Definition ex_sched : list alabel :=
          (axinit init ex_calls)).
 
 Example C08_ex_async :
-  exists x, Sem.run (axstep (step_indexed ex_pages)) (axinit init ex_calls) ex_sched = Some x /            ax_finished x = true /            xouts x = [Rows 0 4; SeekOk; SeekOk; Rows 2 2; Rows 4 4] /            xouts x = run_indexed ex_pages (map op_of_call ex_calls).
+  exists x, Sem.run (axstep (step_indexed ex_pages)) (axinit init ex_calls) ex_sched = Some x /\
+            ax_finished x = true /\
+            xouts x = [Rows 0 4; SeekOk; SeekOk; Rows 2 2; Rows 4 4] /\
+            xouts x = run_indexed ex_pages (map op_of_call ex_calls).
 Proof. vm_compute. eexists. repeat split. Qed.
 
 Example C08_ex_noclose : Forall noclose ex_calls.
